@@ -107,7 +107,11 @@ static int w_apply (void *p, int op, int step, int check) {
   case C_API: { MIR_type_t rt = MIR_T_I64; MIR_new_module (ctx, "ma"); MIR_item_t f = MIR_new_func (ctx, "fa", 1, &rt, 1, MIR_T_I64, "x"); MIR_reg_t x = MIR_reg (ctx, "x", f->u.func), r = MIR_new_func_reg (ctx, f->u.func, MIR_T_I64, "r");
       MIR_append_insn (ctx, f, MIR_new_insn (ctx, MIR_ADD, MIR_new_reg_op (ctx, r), MIR_new_reg_op (ctx, x), MIR_new_int_op (ctx, 1)));
       MIR_append_insn (ctx, f, MIR_new_ret_insn (ctx, 1, MIR_new_reg_op (ctx, r))); MIR_finish_func (ctx); MIR_finish_module (ctx); w->mod[C_API] = last_module (w); break; }
-  case C_SCAN: MIR_scan_string (ctx, "ms: module\nsd: i64 5, 6\nstr: string \"hello\"\nfs: func i64, i64:x\n local i64:r, i64:p\n alloca p, 16\n mov i64:(p), x\n mul r, i64:(p), 3\n ret r\nendfunc\nendmodule\n"); w->mod[C_SCAN] = last_module (w); break;
+  case C_SCAN: MIR_scan_string (ctx, "ms: module\nsd: i64 5, 6\nstr: string \"hello\"\nfs: func i64, i64:x\n local i64:r, i64:p\n alloca p, 16\n mov i64:(p), x\n mul r, i64:(p), 3\n ret r\nendfunc\n"
+                                      /* a loop whose accumulator has a long name and several definitions: SSA renaming at -O2 grows name buffers through VARR_PUSH_ARR */
+                                      "fl: func i64, i64:n\n local i64:accumulator_with_a_long_name, i64:second_long_register_name_i\n mov accumulator_with_a_long_name, 0\n mov second_long_register_name_i, 0\nL1:\n"
+                                      " add accumulator_with_a_long_name, accumulator_with_a_long_name, second_long_register_name_i\n add second_long_register_name_i, second_long_register_name_i, 1\n"
+                                      " blt L1, second_long_register_name_i, n\n ret accumulator_with_a_long_name\nendfunc\nendmodule\n"); w->mod[C_SCAN] = last_module (w); break;
   case C_BIN: bin_pos = 0; MIR_read_with_func (ctx, bin_rd); w->mod[C_BIN] = last_module (w); break;
   case C_C2M: { if (!w->c2m_init) { c2mir_init (ctx); w->c2m_init = 1; } struct c2mir_options o; memset (&o, 0, sizeof o); o.message_file = stderr; cpos = 0;
       if (!c2mir_compile (ctx, &o, cgetc, NULL, "fc.c", NULL)) { failh ("harness", "c2mir_compile failed"); } w->mod[C_C2M] = last_module (w); break; }
@@ -142,9 +146,34 @@ void drv_init (int thorough) {
   /* the binary image read by create(read): written once with the default allocators */
   MIR_context_t c = MIR_init (); MIR_scan_string (c, "mb: module\nfb: func i64, i64:x\n local i64:r\n add r, x, 7\n ret r\nendfunc\nendmodule\n"); MIR_write_with_func (c, bin_wr); MIR_finish (c);
 }
-uint64_t drv_ncases (void) { return 1; }
-void drv_describe (uint64_t idx, char *buf, size_t n) { snprintf (buf, n, "C17 BFS over legal API histories with checking allocators, depth %d", depth); }
+uint64_t drv_ncases (void) { return 2; }
+void drv_describe (uint64_t idx, char *buf, size_t n) {
+  if (idx == 0) snprintf (buf, n, "C17 BFS over legal API histories with checking allocators, depth %d", depth);
+  else snprintf (buf, n, "C17 code patch sweep: every (offset, length) of _MIR_change_code / _MIR_update_code around a page boundary and at the ends of a published region");
+}
+/* every patch of 1..16 bytes at every offset from 24 bytes before to 24 bytes after a page boundary inside a published region (and at both ends of it):
+   the checking code allocator keeps pages read+exec outside the windows the library asks for, so a window that is too short faults */
+static void patch_sweep (void) {
+  world *w = w_fresh (NULL); static uint8_t code[3 * 4096]; memset (code, 0x90, sizeof code); uint64_t n = 0;
+  err_armed = 1; in_api++;
+  if (setjmp (err_jb) == 0) {
+    uint8_t *base = _MIR_publish_code (w->ctx, code, sizeof code), *pg = (uint8_t *) (((uintptr_t) base + 4095) & ~(uintptr_t) 4095);
+    if (pg - base < 32) pg += 4096;
+    for (int d = -24; d <= 24; d++) for (int len = 1; len <= 16; len++) {
+      uint8_t pat[16]; for (int k = 0; k < len; k++) pat[k] = (uint8_t) (d * 7 + len * 3 + k);
+      _MIR_change_code (w->ctx, pg + d, pat, len); n++;
+      if (memcmp (pg + d, pat, len) != 0) failh ("patch-not-written", "_MIR_change_code(page%+d, %d bytes) did not store the bytes", d, len);
+    }
+    for (int d = -24; d <= 24; d++) { MIR_code_reloc_t rl[2]; rl[0].offset = pg + d - base; rl[0].value = (void *) (uintptr_t) (0x1122334455667788ull + d); rl[1].offset = pg + d + 4096 - 8 - base; rl[1].value = (void *) (uintptr_t) (0x99aabbccddeeff00ull + d);
+      _MIR_update_code_arr (w->ctx, base, 2, rl); n++;
+      if (memcmp (pg + d, &rl[0].value, 8) != 0 || memcmp (pg + d + 4096 - 8, &rl[1].value, 8) != 0) failh ("patch-not-written", "_MIR_update_code_arr at page%+d did not store the values", d); }
+    for (int len = 1; len <= 16; len++) { uint8_t pat[16]; memset (pat, 0xC3, sizeof pat); _MIR_change_code (w->ctx, base, pat, len); _MIR_change_code (w->ctx, base + sizeof code - len, pat, len); n += 2; }
+  } else failh ("mir-error", "code patching raised: %s", errmsg);
+  in_api--; err_armed = 0;
+  w_destroy (w); vp_count ("patches", n); vp_nontrivial ();
+}
 void drv_case (uint64_t idx) {
+  if (idx == 1) { patch_sweep (); return; }
   bfs_model m = {NOPS, w_fresh, w_destroy, w_apply, w_canon, w_opname, NULL};
   bfs_result r = bfs_run (&m, depth, NULL, 0);
   vp_count ("states", r.states); vp_count ("transitions", r.transitions); vp_max ("depth", r.max_depth);
